@@ -14,6 +14,8 @@ thread_local! {
     static UNIQUE_GROWS: Cell<u64> = const { Cell::new(0) };
     static LRU_GROWS: Cell<u64> = const { Cell::new(0) };
     static LRU_CONFLICTS: Cell<u64> = const { Cell::new(0) };
+    static RESIDUAL_HASH_BITS: Cell<Option<u32>> = const { Cell::new(None) };
+    static COMPONENT_HASH_CONFLICTS: Cell<u64> = const { Cell::new(0) };
 }
 
 /// Initial number of slots of every unique table created afterwards on this
@@ -56,4 +58,26 @@ pub fn take_counters() -> (u64, u64, u64) {
         LRU_GROWS.with(|c| c.replace(0)),
         LRU_CONFLICTS.with(|c| c.replace(0)),
     )
+}
+
+/// Fault injection on hash quality: `SATSolver::cur_hash` of every solver on this thread
+/// keeps only its low `bits` bits (`None` = the full hash), so that different residual
+/// formulas share a hash all the time.  Everything that is keyed on the hash has to stay
+/// correct under any hash function.
+pub fn set_residual_hash_bits(bits: Option<u32>) {
+    RESIDUAL_HASH_BITS.with(|c| c.set(bits));
+}
+
+pub(crate) fn residual_hash_bits() -> Option<u32> {
+    RESIDUAL_HASH_BITS.with(|c| c.get())
+}
+
+pub(crate) fn note_component_hash_conflict() {
+    COMPONENT_HASH_CONFLICTS.with(|c| c.set(c.get() + 1));
+}
+
+/// number of component-cache lookups on this thread that found the hash of the residual
+/// formula in the cache but no entry for the residual formula itself; resets the counter.
+pub fn take_component_hash_conflicts() -> u64 {
+    COMPONENT_HASH_CONFLICTS.with(|c| c.replace(0))
 }
